@@ -137,19 +137,20 @@ def run_model(ctx, cases):
 
 
 def run_model_hist(ctx, cases):
-    """cases: list of (key, textA, textB) → {key: [m1, m2?]} (program B runs in the engine state program A left)"""
+    """cases: list of (key, textA, textB[, textC…]) → {key: [m1, m2, …]} (each program runs in the engine state the
+    previous one left: `carryOver`)"""
     out = {}
     if not cases:
         return out
 
     def chunk(cs):
-        inp = "".join(f"H {i} 0 {FUEL} {(a.encode('latin1').hex() or '-')} {(b.encode('latin1').hex() or '-')}\n"
-                      for i, (_, a, b) in enumerate(cs))
+        inp = "".join(f"H {i} 0 {FUEL} " + " ".join((t.encode('latin1').hex() or '-') for t in c[1:]) + "\n"
+                      for i, c in enumerate(cs))
         res = {}
         try:
             lines = ctx.pmodel("basic", inp, timeout=900)
         except Exception:
-            return {k: None for k, _, _ in cs}
+            return {c[0]: None for c in cs}
         for line in lines:
             parts = line.split(" | ")
             w = parts[0].split()
@@ -453,9 +454,25 @@ def run(ctx):
         pr = judge_hist(hm.get(i), hr[i])
         if pr and not ctx.violations:
             ctx.violation(pr, {"program": a, "program_b": b, "hosts": ["hist"]})
+    # ---- fixed multi-program simulations: same line numbers, jump targets and variable names in every program
+    MULTI = [
+        ['10 s = 0 : i = 0\n20 i = i + 1 : s = s + i\n40 IF i < 3 THEN GOTO 20\n50 PUNCH s, i',
+         '10 s = 100 : i = 0\n20 i = i + 1 : s = s + 10 * i\n30 q = s\n40 IF i < 4 THEN GOTO 20\n50 PUNCH s, i, q'],
+        ['10 t = 1 : GOSUB 100 : PUNCH t\n20 END\n100 t = t * 2 : RETURN',
+         '10 t = 5 : GOSUB 100 : PUNCH t, 7\n20 END\n90 t = -1\n100 t = t + 1 : RETURN',
+         '10 ON 2 GOTO 90, 100\n20 PUNCH 20\n90 PUNCH 90\n100 PUNCH 100'],
+        ['10 RESTORE 40 : READ a : PUNCH a\n30 DATA 1\n40 DATA 2',
+         '10 RESTORE 40 : READ a, b : PUNCH a, b\n40 DATA 7, 8\n50 FOR k = 1 TO 2 : PUNCH k : NEXT k'],
+    ]
+    mm = run_model_hist(ctx, [(i,) + tuple(c) for i, c in enumerate(MULTI)])
+    mr = run_real(ctx, exe, [(i, "multi", "\n@@\n".join(c)) for i, c in enumerate(MULTI)])
+    for i, c in enumerate(MULTI):
+        pr = judge_hist(mm.get(i), mr[i])
+        if pr and not ctx.violations:
+            ctx.violation(pr.replace("history", "programs of one simulation"), {"program": c[0], "programs": c, "hosts": ["multi"]})
     progs = [dict(text=t, kind="corpus", hist={}, nlines=t.count("\n") + 1) for t in CORPUS] + make_programs(ctx, n)
     stats = dict(programs=len(progs), judged_pairs=0, value_cells=0, ref_ok=0, ref_err=0, ref_fuel=0, ref_unsupported=0, ref_ub=0,
-                 skipped_large=0, real_timeouts=0, histories=0, ub_differences_not_judged=0, error_class_same=0, error_class_other=0, hp_programs=0)
+                 skipped_large=0, real_timeouts=0, histories=0, multi_program_runs=0, multi_family_runs=0, ub_differences_not_judged=0, error_class_same=0, error_class_other=0, hp_programs=0)
     construct = {}
     kinds = {}
     lines_hist = {}
@@ -495,6 +512,31 @@ def run(ctx):
                     hist.append(((i, j), p["text"], batch[j]["text"]))
         hm = run_model_hist(ctx, hist)
         hr = run_real(ctx, exe, [(k, "hist", a + "\n@@\n" + b) for k, a, b in hist]) if hist else {}
+        # several programs in ONE simulation (USER_PUNCH 1..k): the engine has a single interpreter and swaps the line
+        # list / variables per program; lines, variables, loop stack, DATA pointer must be per program
+        multi = []
+        for i, p in enumerate(batch):
+            m = ms[(i, 0)]
+            if m["status"] == "ok" and len(m["punch"]) < 400 and ctx.rng.random() < 0.12:
+                others = [i if ctx.rng.random() < 0.35 else ctx.rng.randrange(len(batch)) for _ in range(ctx.rng.choice([1, 1, 2]))]
+                if all(len(ms[(j, 0)]["punch"]) < 400 and ms[(j, 0)]["status"] != "fuel" for j in others):
+                    multi.append((("m", i) + tuple(others), p["text"]) + tuple(batch[j]["text"] for j in others))
+        for f in range(max(4, len(batch) // 12)):             # families sharing line numbers, jump targets, variable names
+            fam = G.gen_jump_family(ctx.rng, ctx.rng.choice([2, 2, 3, 4]))
+            multi.append((("f", b0, f),) + tuple(fam))
+        mm = run_model_hist(ctx, multi)
+        mr = run_real(ctx, exe, [(c[0], "multi", "\n@@\n".join(c[1:])) for c in multi]) if multi else {}
+        for c in multi:
+            stats["multi_program_runs"] += 1
+            stats["multi_family_runs"] += c[0][0] == "f"
+            pr = judge_hist(mm.get(c[0]), mr[c[0]])
+            if pr and any(m["ub"] for m in mm[c[0]]) and not pr.startswith(("crash", "hang")):
+                stats["ub_differences_not_judged"] += 1
+            elif pr and not ctx.violations:
+                ctx.violation(pr.replace("history", "programs of one simulation"),
+                              {"program": c[1], "programs": list(c[1:]), "hosts": ["multi"],
+                               "reference": [{"status": m["status"], "kind": m["kind"], "punch": [repr(x) for x in m["punch"][:40]]} for m in mm[c[0]]],
+                               "real": {"status": mr[c[0]]["status"], "items": [repr(x) for x in mr[c[0]]["items"][:80]], "err": mr[c[0]]["err"][:300]}})
         for k, a, b in hist:
             stats["histories"] += 1
             pr = judge_hist(hm.get(k), hr[k])
@@ -620,6 +662,16 @@ def replay(ctx, data):
             ctx.violation("proof obligation / translator of C17 still broken", {"broken": ctx.proof_broken}, found_input=False)
         return
     text = data["program"]
+    if "programs" in data:
+        mm = run_model_hist(ctx, [("h",) + tuple(data["programs"])])
+        mr = run_real(ctx, exe, [("h", "multi", "\n@@\n".join(data["programs"]))])
+        pr = judge_hist(mm.get("h"), mr["h"])
+        print("reference:", [(m["status"], m["kind"], [repr(x) for x in m["punch"][:20]]) for m in (mm.get("h") or [])])
+        print("real:", mr["h"]["status"], [repr(x) for x in mr["h"]["items"][:40]], mr["h"]["err"][:200])
+        print("replay result:", pr or "agree")
+        if pr:
+            ctx.violation(pr, dict(data, problems=[pr]))
+        return
     if "program_b" in data:
         hm = run_model_hist(ctx, [("h", text, data["program_b"])])
         hr = run_real(ctx, exe, [("h", "hist", text + "\n@@\n" + data["program_b"])])
@@ -647,6 +699,6 @@ def replay(ctx, data):
 
 MANIFEST = dict(
     technique="Lean 4 reference evaluator of PBasic (tokenizer incl. strtod decimal/hexadecimal, level-indexed 7-level parser, evaluator, token-driven statement machine, basic_compile/basic_run, numtostr and printf %f/%e in exact arithmetic) with theorems for all expressions/programs/states; translator for the token enumeration, keyword table and operator masks; differential testing against the real engine under four hosts, one forked child per case",
-    text="Theorems (Properties/C17.lean, 45): parse_print_roundtrip / parse_level_roundtrip / parse_args_roundtrip (for every well-formed derivation of the documented expression grammar - 15 binary operators on 6 levels, prefix operators/functions, subscripted variables, GET/GET$ argument lists, MID$/PAD/INSTR/TRIM/STR_F$/STR_E$ forms, redundant parentheses; one derivation constructor per expression constructor - the model's parser returns exactly the tree the derivation denotes: left fold per level, ^ to the right, unary tighter than binary), eval_compositional(+_un), run_fuel_mono + exec_total, hosts_agree, gosub_return_stack + return_without_gosub + popTo_gosub, read_data_order + scanToks_first, for_iterations / for_iterations_down / for_count_closed_form (exact rationals, uninterpreted libm), next_uses_nextContinues + for_cell_ignores_pointer + erase_repoints_for_cell (the loop runs on the cell FOR designated, independent of where findvar left the variable's pointer; af19d591), if_then_else + skipToElse_prefix/_matching/_nested/_no_else + else_skips_rest, while_statement + wend_statement + wend_without_while + whileSkip_prefix + while_skips_to_matching_wend + while_skips_nested, PUT/GET keyed store: store_get_put_same / store_get_put_other / find_map_same / find_map_other / get_reads_store / put_writes_store / put_then_get / store_survives_redefinition, let_stores_in_designated_cell + setNum_designated (LET writes the element its left-hand side designates although findvar re-points the per-variable cell pointer at every reference) (a program defined later in the same engine starts with fresh lines, variables, loops, DATA pointer and finds the store unchanged). Obligations over generated data (decide): keywords_documented, functions_documented, rel_mask_is_the_six_relations, loop_masks on Gen/BasicTokens.lean regenerated from PBasic.h/PBasic.cpp each run. Correspondence: 300 (quick) / 30000 (thorough, a quarter of them 80-400 lines with nesting depth up to 6) generated programs, 30% with one malformed-program mutation, plus fixed corpus and documented-value (golden) programs that are independent of model and tables; USER_PUNCH via GetSelectedOutputValue, USER_PRINT text, RATES via calc_kinetic_reaction, CALCULATE_VALUES via -calculate_values; numbers at 1e-12 relative, strings exact, error-vs-value must agree (error class compared and reported), signal/exception/hang = violation; hosts also compared with each other; on 20% of the programs a two-simulation history (USER_PUNCH A, then USER_PUNCH redefined as B in the next simulation of the same engine) is compared row by row with the model's carryOver relation.",
+    text="Theorems (Properties/C17.lean, 48): parse_print_roundtrip / parse_level_roundtrip / parse_args_roundtrip (for every well-formed derivation of the documented expression grammar - 15 binary operators on 6 levels, prefix operators/functions, subscripted variables, GET/GET$ argument lists, MID$/PAD/INSTR/TRIM/STR_F$/STR_E$ forms, redundant parentheses; one derivation constructor per expression constructor - the model's parser returns exactly the tree the derivation denotes: left fold per level, ^ to the right, unary tighter than binary), eval_compositional(+_un), run_fuel_mono + exec_total, hosts_agree, gosub_return_stack + return_without_gosub + popTo_gosub, read_data_order + scanToks_first, for_iterations / for_iterations_down / for_count_closed_form (exact rationals, uninterpreted libm), next_uses_nextContinues + for_cell_ignores_pointer + erase_repoints_for_cell (the loop runs on the cell FOR designated, independent of where findvar left the variable's pointer; af19d591), if_then_else + skipToElse_prefix/_matching/_nested/_no_else + else_skips_rest, while_statement + wend_statement + wend_without_while + whileSkip_prefix + while_skips_to_matching_wend + while_skips_nested, PUT/GET keyed store: store_get_put_same / store_get_put_other / find_map_same / find_map_other / get_reads_store / put_writes_store / put_then_get / store_survives_redefinition, let_stores_in_designated_cell + setNum_designated (LET writes the element its left-hand side designates although findvar re-points the per-variable cell pointer at every reference) (a program defined later in the same engine starts with fresh lines, variables, loops, DATA pointer and finds the store unchanged). compileAndRun_eq_from + program_isolation + run_after_equals_run_alone (a program run after another in the same engine sees of it only the PUT/GET store and the output flags; with those at rest it evaluates as if alone). Obligations over generated data (decide): keywords_documented, functions_documented, rel_mask_is_the_six_relations, loop_masks on Gen/BasicTokens.lean regenerated from PBasic.h/PBasic.cpp each run. Correspondence: 300 (quick) / 30000 (thorough, a quarter of them 80-400 lines with nesting depth up to 6) generated programs, 30% with one malformed-program mutation, plus fixed corpus and documented-value (golden) programs that are independent of model and tables; USER_PUNCH via GetSelectedOutputValue, USER_PRINT text, RATES via calc_kinetic_reaction, CALCULATE_VALUES via -calculate_values; numbers at 1e-12 relative, strings exact, error-vs-value must agree (error class compared and reported), signal/exception/hang = violation; hosts also compared with each other; on 20% of the programs a two-simulation history (USER_PUNCH A, then USER_PUNCH redefined as B in the next simulation of the same engine) is compared row by row with the model's carryOver relation, and 2-4 programs run as USER_PUNCH 1..k of ONE simulation (random picks, the same program twice, and generated families sharing line numbers, jump targets and variable names) are compared row by row the same way.",
     note="Trusted: Lean kernel; tools/gen_basic.py (regex extraction); harness/ph_basic.cpp (fork per case, friend access to calc_kinetic_reaction); tools/gens/basic.py; comparison logic in tools/props/c17.py; platform libm shared by both sides (strtod and printf formatting are re-implemented exactly in Model/BasicNum.lean / BasicLex.lean and compared). Partial / not judged (all counted in the evidence): PUT argument lists are parsed while evaluated (statement level) and are outside the derivation type; expressions are parsed, then evaluated, so when a line holds both a syntax error and an earlier run-time error the error class can differ (outcome 'error' agrees; 2 of 1366 error programs in a 6000-program run); chemistry functions, PEEK/POKE (known finding basic-peek-poke), editor commands (LIST/RUN/NEW/LOAD/MERGE/DEL/RENUM), INPUT, GOTOXY are outside the model ('unsupported', never generated); values after a C conversion with undefined behaviour ((long)/(int) of NaN/out of range) or after formatting a NaN (printf shows its sign bit) are compared but a difference is not a violation; programs that exhaust the model's budget (20000 statements) are only checked for 'no crash'; 4M-character strings / 2M-cell arrays (memory exhaustion) are not judged.",
 )
